@@ -83,6 +83,7 @@ type gResult struct {
 	I    int    `json:"i"`
 	R    string `json:"r"` // ok | mismatch | inconclusive
 	Mode string `json:"mode,omitempty"`
+	Zero bool   `json:"zero"` // "a" concretised as ""
 	Step int    `json:"step"`
 	A    string `json:"a,omitempty"` // action of the step
 	Cls  string `json:"cls,omitempty"`
@@ -188,6 +189,63 @@ type gWorld struct {
 	defs   *gDefs
 	stats  *gStats
 	step   int
+	// zero: abstract value "a" is stored as "" (the Go zero value of the indexed field);
+	// the order "" < "b" < "c" is that of a < b < c
+	zero bool
+	// fault makes the next kv commit issued through a gorp tx fail
+	fault *gFaultDB
+}
+
+func (w *gWorld) conc(v string) string {
+	if w.zero && v == "a" {
+		return ""
+	}
+	return v
+}
+
+func (w *gWorld) abs(v string) string {
+	if w.zero && v == "" {
+		return "a"
+	}
+	return v
+}
+
+func (w *gWorld) concAll(vs []string) []string {
+	o := make([]string, len(vs))
+	for i, v := range vs {
+		o[i] = w.conc(v)
+	}
+	return o
+}
+
+// absAll rewrites query results into abstract values.
+func (w *gWorld) absAll(es []gEntry) {
+	for i := range es {
+		es[i].Val = w.abs(es[i].Val)
+	}
+}
+
+// gFaultDB wraps the kv store: a transaction opened through it fails its Commit (without
+// applying anything) when failNext is set - the way a kv engine reports a failed commit.
+type gFaultDB struct {
+	kv.DB
+	failNext atomic.Bool
+}
+
+type gFaultTx struct {
+	kv.Tx
+	db *gFaultDB
+}
+
+var errGInjected = errors.New("verif: injected kv commit failure")
+
+func (d *gFaultDB) OpenTx() kv.Tx { return &gFaultTx{Tx: d.DB.OpenTx(), db: d} }
+
+func (t *gFaultTx) Commit(ctx context.Context, opts ...any) error {
+	if t.db.failNext.Swap(false) {
+		return errGInjected
+	}
+	return t.Tx.Commit(ctx, opts...)
 }
 
 // gRemoteObs forwards kv changes to the index observer only while `on` is set: the
@@ -206,13 +264,14 @@ func (o gRemoteObs) OnChange(h func(context.Context, kv.TxReader)) observe.Disco
 	})
 }
 
-func gOpen(ctx context.Context, mode string, pre map[string]string, defs *gDefs, st *gStats) (*gWorld, error) {
-	w := &gWorld{ctx: ctx, mode: mode, txs: map[string]Tx{}, defs: defs, stats: st}
+func gOpen(ctx context.Context, mode string, zero bool, pre map[string]string, defs *gDefs, st *gStats) (*gWorld, error) {
+	w := &gWorld{ctx: ctx, mode: mode, zero: zero, txs: map[string]Tx{}, defs: defs, stats: st}
 	w.kvdb = memkv.New()
+	w.fault = &gFaultDB{DB: w.kvdb}
 	if mode == "ext" {
-		w.db = Wrap(w.kvdb, WithIndexObservable(gRemoteObs{src: w.kvdb, on: &w.remote}))
+		w.db = Wrap(w.fault, WithIndexObservable(gRemoteObs{src: w.kvdb, on: &w.remote}))
 	} else {
-		w.db = Wrap(w.kvdb)
+		w.db = Wrap(w.fault)
 	}
 	// scheduling hook for NestedCommit: runs inside the outer commit, after the kv apply
 	// and before the outer delta flush
@@ -232,7 +291,7 @@ func gOpen(ctx context.Context, mode string, pre map[string]string, defs *gDefs,
 	var seed []gEntry
 	for k, v := range pre {
 		if v != "none" {
-			seed = append(seed, gEntry{ID: gKeyID(k), Val: v})
+			seed = append(seed, gEntry{ID: gKeyID(k), Val: w.conc(v)})
 		}
 	}
 	sort.Slice(seed, func(a, b int) bool { return seed[a].ID > seed[b].ID })
@@ -284,7 +343,7 @@ func (w *gWorld) eqF(sorted bool) func(vals ...string) gFilter {
 func (w *gWorld) build(t *gTree, eq func(...string) gFilter) gFilter {
 	switch t.Op {
 	case "eq":
-		return eq(t.Vals...)
+		return eq(w.concAll(t.Vals)...)
 	case "keys":
 		ids := make([]int32, len(t.Keys))
 		for i, k := range t.Keys {
@@ -294,7 +353,7 @@ func (w *gWorld) build(t *gTree, eq func(...string) gFilter) gFilter {
 	case "pred":
 		p := t.P
 		return Match[int32, gEntry](func(_ Context, e *gEntry) (bool, error) {
-			return gPred(p, e.ID, e.Val), nil
+			return gPred(p, e.ID, w.abs(e.Val)), nil
 		})
 	case "and", "or":
 		fs := make([]gFilter, len(t.Args))
@@ -311,9 +370,9 @@ func (w *gWorld) build(t *gTree, eq func(...string) gFilter) gFilter {
 	panic("unknown op " + t.Op)
 }
 
-func gScanF(t *gTree) gFilter {
+func (w *gWorld) scanF(t *gTree) gFilter {
 	return Match[int32, gEntry](func(_ Context, e *gEntry) (bool, error) {
-		return gHolds(t, e.ID, e.Val), nil
+		return gHolds(t, e.ID, w.abs(e.Val)), nil
 	})
 }
 
@@ -366,7 +425,7 @@ func (w *gWorld) apply(s *gStep, n int) (string, error) {
 	ctx := w.ctx
 	sorted := n%2 == 1
 	setVal := func(v string) func(Context, gEntry) gEntry {
-		return func(_ Context, e gEntry) gEntry { e.Val = v; return e }
+		return func(_ Context, e gEntry) gEntry { e.Val = w.conc(v); return e }
 	}
 	cls := func(err error) (string, error) {
 		if err == nil {
@@ -407,7 +466,7 @@ func (w *gWorld) apply(s *gStep, n int) (string, error) {
 				_ = in.Close()
 			}
 		} else {
-			e := gEntry{ID: gKeyID(s.K), Val: s.V}
+			e := gEntry{ID: gKeyID(s.K), Val: w.conc(s.V)}
 			f = func() { innerErr = w.tbl.NewCreate().Entry(&e).Exec(ctx, w.db) }
 		}
 		w.inner = nil
@@ -428,8 +487,27 @@ func (w *gWorld) apply(s *gStep, n int) (string, error) {
 			return "error", err
 		}
 		return cls(innerErr)
+	case "commitfail":
+		// the kv engine refuses the commit: for the table and the index this is an abort
+		t := w.txs[s.U]
+		delete(w.txs, s.U)
+		w.fault.failNext.Store(true)
+		err := t.Commit(ctx)
+		w.fault.failNext.Store(false)
+		_ = t.Close()
+		if errors.Is(err, errGInjected) {
+			return "commitfail", nil
+		}
+		return cls(err)
 	case "set":
-		e := gEntry{ID: gKeyID(s.K), Val: s.V}
+		e := gEntry{ID: gKeyID(s.K), Val: w.conc(s.V)}
+		return cls(w.tbl.NewCreate().Entry(&e).Exec(ctx, w.view(s.U)))
+	case "delset":
+		// delete the row, then create it again, through the same view
+		if err := w.tbl.NewDelete().Where(MatchKeys[int32, gEntry](gKeyID(s.K))).Exec(ctx, w.view(s.U)); err != nil {
+			return cls(err)
+		}
+		e := gEntry{ID: gKeyID(s.K), Val: w.conc(s.V)}
 		return cls(w.tbl.NewCreate().Entry(&e).Exec(ctx, w.view(s.U)))
 	case "upd":
 		return cls(w.tbl.NewUpdate().Where(MatchKeys[int32, gEntry](gKeyID(s.K))).
@@ -437,9 +515,9 @@ func (w *gWorld) apply(s *gStep, n int) (string, error) {
 	case "del":
 		return cls(w.tbl.NewDelete().Where(MatchKeys[int32, gEntry](gKeyID(s.K))).Exec(ctx, w.view(s.U)))
 	case "updeq":
-		return cls(w.tbl.NewUpdate().Where(w.eqF(sorted)(s.V)).Change(setVal(s.V2)).Exec(ctx, w.view(s.U)))
+		return cls(w.tbl.NewUpdate().Where(w.eqF(sorted)(w.conc(s.V))).Change(setVal(s.V2)).Exec(ctx, w.view(s.U)))
 	case "deleq":
-		return cls(w.tbl.NewDelete().Where(w.eqF(sorted)(s.V)).Exec(ctx, w.view(s.U)))
+		return cls(w.tbl.NewDelete().Where(w.eqF(sorted)(w.conc(s.V))).Exec(ctx, w.view(s.U)))
 	case "remote":
 		// a write below the table (no index staging): the index learns of it through the
 		// change observer only
@@ -448,7 +526,7 @@ func (w *gWorld) apply(s *gStep, n int) (string, error) {
 		if s.V == "del" {
 			return cls(NewDelete[int32, gEntry]().Where(MatchKeys[int32, gEntry](gKeyID(s.K))).Exec(ctx, w.db))
 		}
-		e := gEntry{ID: gKeyID(s.K), Val: s.V}
+		e := gEntry{ID: gKeyID(s.K), Val: w.conc(s.V)}
 		return cls(NewCreate[int32, gEntry]().Entry(&e).Exec(ctx, w.db))
 	}
 	return "error", fmt.Errorf("unknown action %q", s.A)
@@ -535,7 +613,7 @@ func (w *gWorld) check(s *gStep, n int) (mis *gMis, dupMis *gMis) {
 			got[k] = "none"
 		}
 		for _, e := range rows {
-			got[gKeyName(e.ID)] = e.Val
+			got[gKeyName(e.ID)] = w.abs(e.Val)
 		}
 		if fmt.Sprint(got) != fmt.Sprint(exp) {
 			return &gMis{"view", "rows read by " + u, fmt.Sprint(exp), fmt.Sprint(got)}, nil
@@ -559,10 +637,10 @@ func (w *gWorld) check(s *gStep, n int) (mis *gMis, dupMis *gMis) {
 				var err error
 				name := "LookupIndex"
 				if which == 0 {
-					ks, err = w.li.Get(gtx, v)
+					ks, err = w.li.Get(gtx, w.conc(v))
 				} else {
 					name = "SortedIndex"
-					ks, err = w.si.Get(gtx, v)
+					ks, err = w.si.Get(gtx, w.conc(v))
 				}
 				if err != nil {
 					return &gMis{"error", name + ".Get", "", err.Error()}, nil
@@ -602,7 +680,7 @@ func (w *gWorld) check(s *gStep, n int) (mis *gMis, dupMis *gMis) {
 				case 1:
 					f, name = w.build(tr, w.si.Filter), "sorted"
 				case 2:
-					f, name = gScanF(tr), "scan"
+					f, name = w.scanF(tr), "scan"
 				}
 				what := fmt.Sprintf("tree %d via %s in %s", i+1, name, u)
 				var res []gEntry
@@ -620,6 +698,7 @@ func (w *gWorld) check(s *gStep, n int) (mis *gMis, dupMis *gMis) {
 				if err != nil && !(bare && errors.Is(err, query.ErrNotFound)) {
 					return &gMis{"error", what, "", err.Error()}, nil
 				}
+				w.absAll(res)
 				m, dup := gCheckEntries(res, want, exp, dupOK, what)
 				if m != nil {
 					if variant == 2 {
@@ -731,7 +810,7 @@ func (w *gWorld) checkOrdered(s *gStep, n int, u string, t Tx, dirty bool) *gMis
 		}
 		oqry := w.si.Ordered(dir)
 		if oq.Cur != "none" {
-			oqry = oqry.After(oq.Cur)
+			oqry = oqry.After(w.conc(oq.Cur))
 		}
 		q := w.tbl.NewRetrieve()
 		var tr *gTree
@@ -748,6 +827,7 @@ func (w *gWorld) checkOrdered(s *gStep, n int, u string, t Tx, dirty bool) *gMis
 			return &gMis{"error", fmt.Sprintf("ordered %+v", oq), "", err.Error()}
 		}
 		atomic.AddInt64(&w.stats.Ordered, 1)
+		w.absAll(res)
 		cls := "ordered"
 		if dirty {
 			cls = "ordered-tx" // documented: ordered iteration is not read-your-writes
@@ -815,7 +895,7 @@ func (w *gWorld) checkOrdered(s *gStep, n int, u string, t Tx, dirty bool) *gMis
 }
 
 // gReplay steps a fresh table through one history in one observer mode.
-func gReplay(hist []gStep, mode string, defs *gDefs, st *gStats) (res gResult) {
+func gReplay(hist []gStep, mode string, zero bool, defs *gDefs, st *gStats) (res gResult) {
 	res.R = "ok"
 	res.Mode = mode
 	res.Step = -1
@@ -823,7 +903,7 @@ func gReplay(hist []gStep, mode string, defs *gDefs, st *gStats) (res gResult) {
 	if len(hist) == 0 || hist[0].A != "populate" {
 		return gResult{R: "inconclusive", What: "history does not start with populate"}
 	}
-	w, err := gOpen(ctx, mode, hist[0].KV, defs, st)
+	w, err := gOpen(ctx, mode, zero, hist[0].KV, defs, st)
 	if err != nil {
 		return gResult{R: "inconclusive", Mode: mode, What: "open: " + err.Error()}
 	}
@@ -904,7 +984,16 @@ func TestVerifGorpReplay(t *testing.T) {
 					results <- gResult{I: j.i, R: "inconclusive", What: err.Error()}
 					continue
 				}
-				for _, mode := range modes {
+				for mi, mode := range modes {
+					// value concretisation: each behaviour runs once with "a" stored as "a" and
+					// once as "" (alternating which observer mode gets which)
+					zero := (j.i+mi)%2 == 0
+					switch os.Getenv("VERIF_ZERO") {
+					case "0":
+						zero = false
+					case "1":
+						zero = true
+					}
 					var r gResult
 					func() {
 						defer func() {
@@ -912,9 +1001,10 @@ func TestVerifGorpReplay(t *testing.T) {
 								r = gResult{R: "mismatch", Mode: mode, Step: -1, Cls: "panic", Act: fmt.Sprint(p)}
 							}
 						}()
-						r = gReplay(hist, mode, &defs, &st)
+						r = gReplay(hist, mode, zero, &defs, &st)
 					}()
 					r.I = j.i
+					r.Zero = zero
 					if r.Step >= 0 && r.Step < len(hist) {
 						r.A = hist[r.Step].A
 					}
@@ -1030,7 +1120,7 @@ func TestVerifGorpConcurrent(t *testing.T) {
 	for _, mode := range []string{"self", "ext"} {
 		o := outc{Kind: "commit-commit", Mode: mode, Trials: trials}
 		for it := 0; it < trials; it++ {
-			w, err := gOpen(ctx, mode, map[string]string{"k1": "a", "k2": "b"}, &gDefs{}, &gStats{})
+			w, err := gOpen(ctx, mode, false, map[string]string{"k1": "a", "k2": "b"}, &gDefs{}, &gStats{})
 			if err != nil {
 				t.Fatal(err)
 			}
